@@ -302,6 +302,74 @@ func c06NewDenseSym(n int) {
 	rt.Reach("end")
 }
 
+// c06ComplementViewSym: the Complement view over EVERY DenseGraph on n vertices at once
+// (symbolic edge bytes): N, M, Degrees and IsEdge (incl. i == j) follow the definition, and
+// keep following it after the underlying graph is edited.
+func c06ComplementViewSym(n int) {
+	bit := make([][]byte, n)
+	for i := range bit {
+		bit[i] = make([]byte, n)
+	}
+	edges := make([]byte, n*(n-1)/2)
+	for j := 1; j < n; j++ {
+		for i := 0; i < j; i++ {
+			b := rt.Bit("e")
+			edges[j*(j-1)/2+i] = b
+			bit[i][j], bit[j][i] = b, b
+		}
+	}
+	deg := make([]int, n)
+	m := 0
+	for i := 0; i < n; i++ {
+		for j := 0; j < n; j++ {
+			if i != j {
+				deg[i] += int(bit[i][j])
+				if i < j {
+					m += int(bit[i][j])
+				}
+			}
+		}
+	}
+	g := &DenseGraph{NumberOfVertices: n, NumberOfEdges: m, DegreeSequence: deg, Edges: edges}
+	c := Complement(g)
+	check := func(what string) {
+		rt.Check(c.N() == n, "Complement view"+what+": N() wrong")
+		degs := c.Degrees()
+		rt.Check(len(degs) == n, "Complement view"+what+": Degrees() has the wrong length")
+		if len(degs) != n {
+			return
+		}
+		wm := 0
+		for i := 0; i < n; i++ {
+			wd := 0
+			rt.Check(!c.IsEdge(i, i), "Complement view"+what+": loop")
+			for j := 0; j < n; j++ {
+				if i == j {
+					continue
+				}
+				wd += int(bit[i][j])
+				if i < j {
+					wm += int(bit[i][j])
+				}
+				rt.Check(c.IsEdge(i, j) == (bit[i][j] == 0), "Complement view"+what+": IsEdge is not the negation of the graph's")
+			}
+			rt.Check(degs[i] == (n-1)-wd, "Complement view"+what+": Degrees() differs from adjacency")
+		}
+		rt.Check(c.M() == n*(n-1)/2-wm, "Complement view"+what+": M() differs from the number of edges")
+	}
+	check("")
+	// the view is live: edit the graph underneath
+	g.AddEdge(0, n-1)
+	bit[0][n-1], bit[n-1][0] = 1, 1
+	g.RemoveEdge(1, 2)
+	bit[1][2], bit[2][1] = 0, 0
+	check(" after the graph was edited")
+	rt.Reach("end")
+}
+
+func H_c06_complviewsym_q() { c06ComplementViewSym(10) }
+func H_c06_complviewsym_t() { c06ComplementViewSym(20) }
+
 func H_c06_newdensesym_q() { c06NewDenseSym(10) }
 func H_c06_newdensesym_t() { c06NewDenseSym(20) }
 
